@@ -179,7 +179,10 @@ def inline_helpers(toks, log):
                 if recv is not None:
                     rep += ["let", "verif_self", "=", "&", "("] + recv + [")", ";"]
                 for pn, a in zip(h["params"], args):
-                    rep += ["let", pn, "="] + a + [";"]
+                    if len(a) == 1 and (a[0].startswith('"') or re.match(r"^-?\d", a[0])) and body.count("let") == sum(1 for k in range(len(body) - 1) if body[k] == "let" and body[k + 1] != pn and not (body[k + 1] == "mut" and k + 2 < len(body) and body[k + 2] == pn)):
+                        body = [a[0] if t == pn else t for t in body]        # a literal argument stands where the parameter stood (the unit's rules are written for literals)
+                    else:
+                        rep += ["let", pn, "="] + a + [";"]
                 rep += body + ["}"]
                 log.append(("R14b", f"{name}(..)", "{ let <params> = <args>; <body of the helper> }", f"helper function inlined (beta reduction): {h['where']}"))
                 out[start:c + 1] = rep
